@@ -307,6 +307,21 @@ def check_case(ctx, case, rng, cc=None):
                 continue
             if len(d) != n:
                 viol("dump", "dump-length-differs-from-len", data=data, got=len(d), want=n)
+                continue
+            # write() reports what it wrote: the instance form, the class form and an array of the structure
+            import io as _io
+            try:
+                out1, out2, out3 = _io.BytesIO(b"\xee" * 16), _io.BytesIO(), _io.BytesIO()
+                out1.seek(16)
+                counts = (r[1].write(out1), T.write(out2, r[1]), T[2].write(out3, [r[1], r[1]]))
+                wrote = (len(out1.getvalue()) - 16, len(out2.getvalue()), len(out3.getvalue()))
+            except Exception as e:  # noqa: BLE001
+                viol("write", f"write-raises:{type(e).__name__}", data=data, error=lib.exc_sig(e))
+                continue
+            ctx.event("write_return_values_compared")
+            if counts != wrote or wrote != (n, n, 2 * n):
+                viol("write", "write-reports-another-number-of-bytes-than-it-wrote", data=data, got=list(counts),
+                     wrote=list(wrote), want=[n, n, 2 * n])
 
 
 def mixed_modes(ctx, n):
